@@ -9,6 +9,8 @@ def merge(recs_list):
     by = {}
     for recs in recs_list:
         for r in recs:
+            if r.get("crashed"):
+                r = {"id": r["id"], "routes": ["PROCESS-CRASH"], "obs": [-5]}
             m = by.setdefault(r["id"], {"id": r["id"], "routes": [], "obs": []})
             m["routes"] += r["routes"]
             m["obs"] += r["obs"]
@@ -56,7 +58,7 @@ def classify(ctx, cases_by_id, fails, kind="dist"):
 
 
 def run_dist_family(ctx, cases, worker, nonumpy_pass=False, mc_cfgs=(), rule="", module="dtwx",
-                    mc_module="MC_DTWCore"):
+                    mc_module="MC_DTWCore", kind="dist"):
     ctx.rule = rule
     ctx.log("building /repo working tree")
     src = build.py_build()
@@ -72,7 +74,7 @@ def run_dist_family(ctx, cases, worker, nonumpy_pass=False, mc_cfgs=(), rule="",
     records = []
     for c in cases:
         m = merged[c["id"]]
-        rec = {"id": c["id"], "kind": "dist", "c": dtwx.tla_case(c), "prune": bool(c.get("prune")),
+        rec = {"id": c["id"], "kind": kind, "c": dtwx.tla_case(c), "prune": bool(c.get("prune")),
                "routes": m["routes"], "obs": m["obs"]}
         c["_rec"] = rec
         records.append(rec)
@@ -80,6 +82,8 @@ def run_dist_family(ctx, cases, worker, nonumpy_pass=False, mc_cfgs=(), rule="",
     ctx.log("Act T: TLC judges %d records (%d observations)" % (len(records), ctx.evaluations))
     res = tlc.validate_traces("DTWTrace", "DTWTrace.cfg", records)
     ctx.add_tv(res)
+    if res.get("notes"):
+        ctx.extra["reference_deviates_from_spec"] = len(res["notes"])
     classify(ctx, by_id, res["fails"])
     seen = set()
     for c in cases:
